@@ -1,6 +1,6 @@
 """Sidecar contracts for tefra/xsdata, keyed by module:QualName (see DESIGN.md §2.1)."""
 
-MODULES = ["c06_dates", "c03_namespaces", "c05_converters", "c10_strictness", "c09_infoset"]
+MODULES = ["c06_dates", "c03_namespaces", "c05_converters", "c10_strictness", "c09_infoset", "c06_datatypes"]
 
 # helpers executed by inlining their real source instead of through a contract (listed in evidence)
 INLINE = ["calendar:isleap"]
